@@ -5,20 +5,20 @@ in the contract files themselves (contracts/fns/*.vc)."""
 # property -> {"units": [verus unit names], "kani": [harness group names], "undecided": [clauses not decided]}
 PROPS = {
     "C02": {
-        "units": ["U4_end_records", "U5_header_writers"],
+        "units": ["U4_end_records", "U5_header_writers", "U7_writer", "U7a_writer_leaves", "U7b_append_copy"],
         "kani": ["types"],
         "technique": "Verus contracts on the record/header serialisers against APPNOTE layout spec functions (the independent parser), with inverse lemmas",
         "level_text": "Deductive proof, for every entry metadata value and every sink behaviour (short writes, failure at any call), that each serialiser either reports an error or has written exactly the APPNOTE 4.3.7 / 4.3.12 / 4.3.14-16 / 4.5.3 byte layout of its argument: local header, back-patch of CRC/sizes (in place, nothing else touched), central header with the ZIP64 record carrying exactly the saturated fields, end records; the UTF-8 flag is bit 11 exactly for non-ASCII names; name/extra lengths that do not fit 16 bits are refused before anything is written; version-needed is at least what the entry uses.",
-        "level_note": "the writer state machine (ZipWriter: offsets recorded = actual positions, ZIP64 end-record decision, comment length check, no overlap) is unit U7 and not under contract yet: listed as undecided; utf8()/is_ascii are vstd/uninterpreted string specs; `impl Write for &mut [u8]` assumed at one call site (T7x)",
-        "undecided": ["ZipWriter state machine: recorded offsets/counts/sizes equal actual positions, finalize's ZIP64 decision, archive comment length refusal (unit U7)", "stored CRC/sizes match the decoded data (compressors assumed; writer accounting is unit U7)"],
+        "level_note": "ZipWriter (unit U7): each started entry's local header sits exactly at the recorded header_start and the data start is the position after it; finalize writes the end records for the directory it just wrote (exact values, ZIP64 records whenever a count/size/offset does not fit, saturated fields only together with them) and refuses a comment over 65535 bytes; the placement of every central record at the end (append-only frame over the whole loop) is argued from the per-record contract, not a checked lemma; utf8()/is_ascii are vstd/uninterpreted string specs; `impl Write for &mut [u8]` assumed at one call site (T7x)",
+        "undecided": ["central records of earlier iterations are still in place when finalize returns (append-only frame; per-record placement is proved)", "stored CRC/sizes match the decoded data: compressors assumed; the writer records crc32(hasher view) and the accepted byte count (proved)"],
     },
     "C08": {
-        "units": ["U4_end_records", "U5_header_writers", "U6_central_parser"],
+        "units": ["U4_end_records", "U5_header_writers", "U6_central_parser", "U7_writer", "U8b_archive"],
         "kani": ["types"],
         "technique": "Verus contracts: ZIP64 writer layouts vs APPNOTE spec functions and the reader's extra-field walk proved against an APPNOTE walk spec (all u64 values, no enumeration)",
         "level_text": "Deductive proof for all 64-bit values (sizes and offsets are symbolic, including 0xFFFFFFFF and its neighbours): the central ZIP64 record carries exactly the fields whose 32-bit header field is saturated, in the fixed order; the local one carries both sizes; the reader's extra-field walk substitutes exactly the saturated fields in that order for any well-formed extra field in any record order (loop invariant against a recursive APPNOTE walk); ZIP64 end record and locator are written and parsed per APPNOTE with inverse lemmas; back-patching refuses a compressed size above 4 GiB without large_file.",
-        "level_note": "the writer's thresholds in ZipWriter::write/finalize and get_directory_counts (units U7/U8) are not under contract yet: listed as undecided",
-        "undecided": ["write() refusing >4GiB without large_file and poisoning the writer; finalize() ZIP64 end-record decision (unit U7)", "get_directory_counts: ZIP64 locator probe and archive offset (unit U8)"],
+        "level_note": "ZipWriter::write refuses to report success once an entry not declared large exceeds 0xFFFFFFFF bytes (and finish then fails: closed writer); finalize emits ZIP64 end record + locator whenever the entry count exceeds 0xFFFF or the directory size/offset exceeds 0xFFFFFFFF, with exact values; get_directory_counts follows the locator and searches forward for the record; all values symbolic (no sparse sinks needed)",
+        "undecided": [],
     },
     "C03": {
         "units": ["U4_end_records", "U6_central_parser", "U8_entry_readers", "U8b_archive"],
@@ -45,12 +45,12 @@ PROPS = {
         "undecided": ["ZipArchive::new: capacity bound and directory loop; by_index/by_name error mapping (archive-level unit)", "AesReader::new underflow guard, AesReaderValid::read (unit U11)", "ZipWriter::new_append (unit U7)"],
     },
     "C09": {
-        "units": ["U9_crc", "U10_zipcrypto", "U11_aes", "U8_entry_readers", "U7a_writer_leaves"],
+        "units": ["U9_crc", "U10_zipcrypto", "U11_aes", "U8_entry_readers", "U7a_writer_leaves", "U7_writer"],
         "kani": [],
         "technique": "Verus stream-transformer contracts (state is a function of the bytes consumed) under an I/O model that quantifies over every short-read/short-write schedule",
         "level_text": "Deductive proof that each reader layer advances its state by exactly the count the inner reader returned, whatever that count is: Crc32Reader hashes exactly the returned bytes; ZipCryptoReaderValid decrypts exactly the n bytes read and leaves the keys where n bytes put them (the repaired short-read defect, pinned by a named clause); AesReaderValid advances data_remaining, the HMAC view and the CTR key-stream offset by exactly n, with chunk-independence lemmas for the key stream and for composed reads; after end-of-data further reads return Ok(0) without effect; the raw Take path passes the device bytes through unchanged. On the write side ZipCryptoWriter buffers exactly what it accepts and ZipWriterStats accounts exactly the slice it is given; header writers only use all-or-error primitives.",
-        "level_note": "compressors/decompressors assumed chunk-independent; ZipWriter::write accounting the accepted count (not buf.len()) is in unit U7 (not built yet): undecided; vstd's slice iterator specs are trusted for the iter_mut loops",
-        "undecided": ["ZipWriter::write: stats and hasher advance by the count the sink accepted (unit U7)"],
+        "level_note": "compressors/decompressors assumed chunk-independent; ZipWriter::write accounts exactly the count the installed writer accepted (named clause); what is written through `ref_mut`'s `&mut dyn Write` is not tracked byte-for-byte (assumed contract, Verus has no unsizing cast) - MaybeEncrypted::write itself is proved to be the sink's own write; vstd's slice iterator specs are trusted for the iter_mut loops",
+        "undecided": [],
     },
     "C15": {
         "units": ["U10_zipcrypto", "U8_entry_readers", "U8b_archive", "U5_header_writers"],
@@ -67,6 +67,54 @@ PROPS = {
         "level_text": "Deductive proof that: AesReader::new refuses an entry shorter than salt+verifier+MAC (repaired underflow); validate reads salt and verifier, slices the PBKDF2 output as cipher key | MAC key | verifier and answers wrong-password exactly when the verifiers differ; read feeds exactly the returned ciphertext bytes to the HMAC before decrypting them with the little-endian CTR key stream starting at counter 1, and at the end of the payload reads the 10-byte code and fails unless it equals the first 10 bytes of the HMAC; the AES extra field is parsed per the WinZip layout in any record order (repaired skip defect); AE-2 alone exempts the CRC; no password gives the password-required/refused result.",
         "level_note": "AES, HMAC-SHA1, PBKDF2 are uninterpreted functions: 'any change is detected' holds relative to them; xor() and cipher_from_mode are assumed contracts (iterator zip / Box<dyn>), the former to be covered by Kani; an entry with zero payload bytes is never MAC-checked (stated by the contract; the property exempts empty entries)",
         "undecided": ["xor(): dest[i] ^= src[i] (assumed in Verus; Kani harness pending)"],
+    },
+    "C01": {
+        "units": ["U4_end_records", "U5_header_writers", "U6_central_parser", "U7_writer", "U7a_writer_leaves", "U7b_append_copy", "U8_entry_readers", "U8b_archive", "U9_crc"],
+        "kani": ["types"],
+        "technique": "Verus contracts on writer and reader against shared APPNOTE spec functions, with proved inverse lemmas for the end records",
+        "level_text": "Deductive proof of both directions against the same APPNOTE layout functions: every header/record the writer emits equals enc_X(entry) (local header at the recorded offset, central header, end records) and every reader function returns the APPNOTE decode dec_X of the bytes it is handed, with inverse lemmas dec(enc(x)) == x proved for the three end records; the writer records crc32 of exactly the bytes accepted and their count; the reader stack verifies that CRC; DOS time pack/unpack are mutually inverse (Kani, all 2^32 words); the permission bits land in external_attributes << 16 and come back through unix_mode(); Drop and finish() both run the same finalize from the same state unless the writer is already closed.",
+        "level_note": "the whole-archive composition (this end record is the one found => these central records are the ones walked => this local header is the one located) is argued from the per-function contracts, not checked as one lemma; inverse lemmas for local/central headers are stated through the shared spec functions rather than proved as separate lemmas; compressors/decompressors are assumed inverse; names embedding record signatures are excluded by the property itself",
+        "undecided": ["whole-archive composition lemma (paper argument in DESIGN.md section 5 C01)", "dec_lfh(enc_lfh(x)) / dec_cdh(enc_cdh(x)) as checked lemmas (both sides are proved against the same spec functions)"],
+    },
+    "C11": {
+        "units": ["U4_end_records", "U5_header_writers", "U6_central_parser", "U7_writer", "U7a_writer_leaves", "U7b_append_copy", "U8_entry_readers", "U8b_archive", "U10_zipcrypto", "U11_aes"],
+        "kani": [],
+        "technique": "Verus panic-freedom and fault-propagation obligations under a device model in which every call may fail any number of times",
+        "level_text": "Deductive proof under the fault model (every device call may return Err at any time; a failure leaves position and content unconstrained): no function under contract panics on any combination of failures; the ZipWriter representation invariant holds after EVERY return, Ok or Err, so any later call including finish() is again panic-free (the repaired underflow in finish_file, the closed-writer panic in end_extra_data and the overflow in the header back-patch are pinned by named obligations); readers and header writers return Ok only if no new fault occurred (`no_swallowed_fault` clauses), an error is returned only for a fault or a malformed input; new_append propagates its final seek.",
+        "level_note": "one tolerated seek failure remains in get_directory_counts (ZIP64 locator probe): its clause is conditional on a fault-free run, and no failing input could be constructed for it (see DESIGN.md, F10b); after a device fault inside end_extra_data the recorded data start may grow by up to 65535 per failed retry, so panic-freedom there is proved only while fewer than 2^47 such retries happened (zw_room); 'same result as the failure-free run' is decided only through C01's functional contracts",
+        "undecided": ["get_directory_counts: a swallowed fault on the ZIP64-locator seek (clause guarded by a fault-free run; no failing input found)", "end_extra_data retried > 2^47 times after a device fault (zw_room precondition)"],
+    },
+    "C12": {
+        "units": ["U7_writer", "U7a_writer_leaves", "U7b_append_copy"],
+        "kani": [],
+        "technique": "Verus representation invariant (zw_wf) required and re-established by every public writer operation: induction over call sequences of any length",
+        "level_text": "Deductive proof by invariant: every public ZipWriter operation requires only the representation invariant and re-establishes it on every exit, so by induction no sequence of calls of any length panics (the unwraps on files.last_mut(), get_plain/unwrap's panic!, the unreachable!() in finish_file, the alignment assert and buffer[11] are all discharged). Misuse is an error by named postconditions: write with no file open, after a directory or symlink, or on a closed writer; end_extra_data without extra data; malformed, truncated, ZIP64 or reserved extra data (validate_extra_data is Ok iff a recursive APPNOTE predicate holds); unsupported method or a level outside the method's range (switch_to, all exits characterised); valid switches from a plain storer succeed. start_entry adds exactly one entry with the metadata of its options and restarts the accounting; finish_file leaves earlier entries and raw-copied metadata untouched.",
+        "level_note": "the experimental encryption option is covered by the same invariant only for start_file+write (start_file_with_extra_data / start_file_aligned require `encrypt_with is None`, as the property's quantifier does); `ref_mut` and write_all on the writer itself are assumed contracts (unsizing cast / std default method); 'archive contains exactly the entries whose creation succeeded' is proved per operation (entry list effects), not as one abstract-list lemma",
+        "undecided": ["abstract entry-list lemma over whole call sequences (per-operation effects on `files` are proved)"],
+    },
+    "C13": {
+        "units": ["U7b_append_copy", "U7_writer", "U8b_archive", "U6_central_parser", "U5_header_writers"],
+        "kani": ["types"],
+        "technique": "Verus contracts on new_append (reuses the reader's directory contracts) + frame clauses of the writer operations",
+        "level_text": "Deductive proof that new_append returns a well-formed writer whose entry list is the APPNOTE parse of the old central directory (same contracts as the reader), with the existing bytes untouched, positioned exactly on the old directory (the final seek is propagated) and in the state in which the first close does not rewrite the last old entry; every later operation leaves all entries but the open one untouched (frame clauses); the re-emitted central header carries system, version, flags, method, time, CRC, sizes, attributes and offset of the entry record (U5), which is what the reader parsed (U6). The repaired defect (refused start_file corrupting the last old entry) is pinned.",
+        "level_note": "per-entry comments and the data-descriptor flag are not re-emitted (not listed by the property); the byte-level frame 'nothing below the old directory start is ever written again' follows from append-only positions and the in-place back-patch contracts, not from a single checked lemma; the collect() in new_append is an assumed contract equal to the loop proved for ZipArchive::new",
+        "undecided": ["byte-level frame lemma over whole sequences (append-only positions + back-patch contracts are proved per function)"],
+    },
+    "C14": {
+        "units": ["U7b_append_copy", "U7_writer", "U7a_writer_leaves", "U8_entry_readers", "U8b_archive"],
+        "kani": ["types"],
+        "technique": "Verus contracts on raw_copy_file_rename and the raw reader path",
+        "level_text": "Deductive proof that a raw copy creates exactly one entry carrying the source's method, CRC-32, sizes, timestamp and permission bits (large_file iff a size exceeds 32 bits), leaves the writer on the stored path with writing_raw set so that the next close does NOT recompute CRC/sizes (finish_file clause), copies every remaining compressed byte of the source unless the source ends early, and leaves earlier entries untouched; the raw reader is the bounded Take over the device positioned at the data offset computed from the local header, bypassing crypto, decoder and CRC.",
+        "level_note": "std::io::copy and the trait-object path through ref_mut are assumed contracts (stated in terms of ZipWriter::write's proved contract); MaybeEncrypted::write on the stored path is proved to be the sink's own write",
+        "undecided": [],
+    },
+    "C17": {
+        "units": ["U7_writer", "U7a_writer_leaves", "U5_header_writers", "U6_central_parser", "U8_entry_readers"],
+        "kani": [],
+        "technique": "Verus contracts on start_file_aligned / extra-data calls with a proved arithmetic lemma for the padding formula",
+        "level_text": "Deductive proof for every alignment 0..65535 and every preceding state that a successful start_file_aligned leaves the entry's data start at a multiple of the alignment (lemma (x + (a - x % a) % a) % a == 0; the in-code assert is an obligation), that extra data written through the writer is collected verbatim, validated (Ok iff well-formed, unreserved, non-ZIP64, within 65535 bytes), appended after the local header with the local extra-length field patched to (20 if large) + length - refused if that does not fit 16 bits -, that the central part stays in the entry and is emitted in the central header, and that the reader reports the data start computed from the local header's own name/extra lengths.",
+        "level_note": "write_all / write_u16 on the writer itself are assumed contracts over ZipWriter::write's proved contract; AtomicU64 is modelled as a plain cell on the writer side",
+        "undecided": [],
     },
     "C10": {
         "units": ["U8_entry_readers"],
